@@ -15,12 +15,12 @@ from mc.pool import h64
 
 ID = "C19"
 LEVEL = "model_checking"
-LEVEL_TEXT = ("Explicit-state search over histories of assemblies run in one process: alphabet of 24 events (valid program; program defining "
+LEVEL_TEXT = ("Explicit-state search over histories of assemblies run in one process: alphabet of 23 events (valid program; program defining "
               "macros, symbols and a named scope whose names collide with the probes'; table load; custom .map; HiROM; failure in the "
               "scanner / parser / code generation / label pass / emission, each mid-way; the CLI in-process with -m and -D; relocation + "
               "incbin + include; failure inside an included file; missing include file; macro block argument; .include_ips with a delta; malformed table file; table file rewritten between assemblies; files read from a sub-directory; code before the first *=; the file API with a mapping argument; failing file-API assemblies of sources in another directory), every history up to depth 2 over all events and depth 3 over 13 core events (thorough 3 / 4) executed from a pristine forked process; the state after each "
               "event is the fingerprint of all module-level mutable state of a816.* and script.* (module globals, class attributes, "
-              "function defaults, cache sizes). In every reached state each of 31 probe programs (valid LoROM/HiROM/.map, macros+scopes, "
+              "function defaults, cache sizes). In every reached state each of 30 probe programs (valid LoROM/HiROM/.map, macros+scopes, "
               "table, failing ones, one that relies on names being absent, files that exist only in a sub-directory, .incbin symbols incl. a file name that is no identifier, code before the first *=, the file API observed through its output file, 400 nested blocks, .text without a table) is assembled twice and must give the blocks, labels, "
               "symbols and error text of the probe assembled alone; one baseline per probe also comes from real fresh interpreters under three string-hash seeds (label order included). "
               "A second family runs <=2 (thorough 3) sources and then a flat probe on ONE Program object and flags silent differences from a fresh Program. Logging is switched on inside the children. Each unit test builds one Program in isolation.")
@@ -117,8 +117,8 @@ NONTRIVIAL_EVENTS = {"defines-names", "table", "custom-map", "hirom", "fail-scan
 
 def bound(tier):
     if tier == "thorough":
-        return "all histories of length <= 3 over 24 events and of length 4 over 13 core events (from a pristine process each), 31 probes x 2 after every history; same-Program-object histories <= 3 over 10 sources x 4 flat probes"
-    return "all histories of length <= 2 over 24 events and of length 3 over 13 core events (from a pristine process each), 31 probes x 2 after every history; same-Program-object histories <= 2 over 10 sources x 4 flat probes"
+        return "all histories of length <= 3 over 23 events and of length 4 over 13 core events (from a pristine process each), 30 probes x 2 after every history; same-Program-object histories <= 3 over 10 sources x 4 flat probes"
+    return "all histories of length <= 2 over 23 events and of length 3 over 13 core events (from a pristine process each), 30 probes x 2 after every history; same-Program-object histories <= 2 over 10 sources x 4 flat probes"
 
 
 def norm(text):
